@@ -44,26 +44,45 @@ def safe_run(ctx, key, cases, timeout=1200):
 
 
 def coq_run(ctx, prefix, check, items, what, per=200):
-    """items: list of (coq text, replay, signature, bad).  Reports disagreements."""
+    """items: list of (coq text, replay, signature, bad).  The case files are compiled later, all
+    families in one parallel batch (flush_coq); disagreements are reported then."""
     chunks = chunked(items, per)
     files = [('%s_%03d' % (prefix, n), CQ.generic_file(check, [x[0] for x in ch])) for n, ch in enumerate(chunks)]
-    dis = []
-    for (name, ok, out), chunk in zip(ctx.coq_eval_many(files), chunks):
-        ctx.obligations += 1
-        badidx = parse_coq_list_of_nat(out) if ok else None
-        if not ok or badidx is None:
-            ctx.broken.append('case file %s did not evaluate: %s' % (name, out[-600:]))
-            continue
-        ctx.discharged += 1
-        dis += [chunk[b] for b in badidx]
-    for (txt, replay, sig, bad) in dis[:4]:
-        if bad:
-            continue     # already reported with this input as a failure of the property itself
-        ctx.broken.append('correspondence C18 model<->impl differs on %s %s' % (what, sig))
-        ctx.report('tie:%s:%s' % (what, sig), 'model and implementation disagree on %s %s%s' % (
-            what, sig, (': ' + bad) if bad else ' (reference semantics still met on this input)'),
-            dict(replay, coq_case=txt), found_input=bool(bad))
-    ctx.cov['disagreements_checked'] += len(dis)
+
+    def handler(dis):
+        for (txt, replay, sig, bad) in dis[:4]:
+            if bad:
+                continue     # already reported with this input as a failure of the property itself
+            ctx.broken.append('correspondence C18 model<->impl differs on %s %s' % (what, sig))
+            ctx.report('tie:%s:%s' % (what, sig), 'model and implementation disagree on %s %s (reference semantics '
+                       'still met on this input)' % (what, sig), dict(replay, coq_case=txt), found_input=False)
+    defer(ctx, files, chunks, handler)
+
+
+def defer(ctx, files, chunks, handler):
+    if not hasattr(ctx, '_c18_jobs'):
+        ctx._c18_jobs = []
+    ctx._c18_jobs.append((files, chunks, handler))
+
+
+def flush_coq(ctx):
+    jobs = getattr(ctx, '_c18_jobs', [])
+    ctx._c18_jobs = []
+    allfiles = [f for (files, _, _) in jobs for f in files]
+    results = {name: (ok, out) for (name, ok, out) in ctx.coq_eval_many(allfiles)}
+    for files, chunks, handler in jobs:
+        dis = []
+        for (name, _), chunk in zip(files, chunks):
+            ok, out = results[name]
+            ctx.obligations += 1
+            badidx = parse_coq_list_of_nat(out) if ok else None
+            if not ok or badidx is None:
+                ctx.broken.append('case file %s did not evaluate: %s' % (name, out[-600:]))
+                continue
+            ctx.discharged += 1
+            dis += [chunk[b_] for b_ in badidx]
+        ctx.cov['disagreements_checked'] += len(dis)
+        handler(dis)
 
 
 # ---------------------------------------------------------------------------
@@ -84,7 +103,7 @@ def run_index_cases(ctx, n):
         shape = [rng.choice([0, 1, 2, 3, 4, 5, 7]) if rng.random() < 0.1 else rng.choice([1, 2, 3, 4, 5, 7])
                  for _ in range(rng.choice([1, 2, 3, 4]))]
         cases.append({'shape': shape, 'I': G.gen_index(rng, shape, malformed=(i % 4 == 3))})
-    res = safe_run(ctx, 'idx', cases)
+    res = yield ('idx', cases)
     if res is None:
         return
     items = []
@@ -141,7 +160,7 @@ def run_generator_cases(ctx, n):
             a0, a1 = rng.sample(range(len(shape)), 2)
             o = {'k': 'matrix_at', 'I': [rng.randrange(m) for m in shape], 'axes': [a0, a1]}
         cases.append({'X': X, 'o': o, 'multi': rng.random() < 0.3})
-    res = safe_run(ctx, 'gen', cases)
+    res = yield ('gen', cases)
     if res is None:
         return
     items = []
@@ -255,7 +274,7 @@ def run_canop_cases(ctx, n):
             c['X'] = G.gen_tensor(rng, mid)
             c['o']['matmul'] = rng.random() < 0.5
         cases.append(c)
-    res = safe_run(ctx, 'cop', cases)
+    res = yield ('cop', cases)
     if res is None:
         return
     items_cop, items_app = [], []
@@ -331,6 +350,95 @@ def run_canop_cases(ctx, n):
 
 
 # ---------------------------------------------------------------------------
+# free functions on full arrays: modek_tprod (dense / csr / csc / LinearOperator), matricize, outer,
+# array_outer
+# ---------------------------------------------------------------------------
+
+def noncubic_shape(rng, d):
+    pool = [1, 2, 3, 4, 5] if d <= 3 else [1, 2, 3, 4]
+    shp = rng.sample(pool, d) if rng.random() < 0.8 else [rng.choice(pool) for _ in range(d)]
+    return shp
+
+
+def run_modek_cases(ctx, n):
+    rng = ctx.rng
+    cases = []
+    # every mode of every order with every operator kind, rectangular operators, non-cubic shapes
+    for rep in range(max(1, n // 40)):
+        for d in (1, 2, 3, 4):
+            for k in range(d):
+                for kind in ('dense', 'csr', 'csc', 'linop'):
+                    shp = noncubic_shape(rng, d)
+                    m = rng.choice([x for x in (1, 2, 3, 4, 5) if x != shp[k]])
+                    cases.append({'f': 'modek', 'X': G.rint_full(rng, shp, -4, 4), 'k': k, 'kind': kind,
+                                  'B': G.rint_mat(rng, m, shp[k], -3, 3)})
+    for _ in range(n // 8):
+        d = rng.choice([1, 2, 3, 4])
+        shp = noncubic_shape(rng, d)
+        cases.append({'f': 'matricize', 'X': G.rint_full(rng, shp, -9, 9), 'k': rng.randrange(d)})
+    for _ in range(n // 8):
+        d = rng.choice([1, 2, 3, 4])
+        if rng.random() < 0.5:
+            cases.append({'f': 'outer', 'xs': [[float(rng.randint(-4, 4)) for _ in range(rng.randint(1, 4))] for _ in range(d)]})
+        else:
+            cases.append({'f': 'array_outer', 'xs': [G.rint_full(rng, noncubic_shape(rng, rng.choice([1, 2])), -4, 4)
+                                                     for _ in range(rng.choice([1, 2, 2]))]})
+    res = yield ('modek', cases)
+    if res is None:
+        return
+    items = []
+    dist = {}
+    for c, r in zip(cases, res):
+        f = c['f']
+        kind = f + (':%s:k%d:order%d' % (c['kind'], c['k'], len(c['X']['sh'])) if f == 'modek' else '')
+        dist[kind] = dist.get(kind, 0) + 1
+        ctx.count(('modek', repr(c)), nontrivial=True)
+        bad = None
+        replay = {'mode': 'modek', 'case': c, 'impl': r,
+                  'how': 'tensor.modek_tprod(B as %s, k, X) / matricize / outer / array_outer on integer data' % c.get('kind')}
+        if r['status'] != 'Ok':
+            bad = 'valid call raised %s: %s' % (r['status'], r.get('msg'))
+        else:
+            got = arr(r['value'])
+            if f == 'modek':
+                X = arr(c['X'])
+                want = np.moveaxis(np.tensordot(G.mat_np(c['B']), X, axes=([1], [c['k']])), 0, c['k'])
+            elif f == 'outer':
+                want = np.array(1.0)
+                for v in c['xs']:
+                    want = np.multiply.outer(want, np.array(v))
+            elif f == 'array_outer':
+                want = np.array(1.0)
+                for a_ in c['xs']:
+                    want = np.multiply.outer(want, arr(a_))
+            else:
+                want = None
+                X = arr(c['X'])
+                k = c['k']
+                fibers = sorted(tuple(col) for col in np.moveaxis(X, k, 0).reshape(X.shape[k], -1).T.tolist())
+                if got.ndim != 2 or got.shape[0] != X.shape[k] or sorted(tuple(col) for col in got.T.tolist()) != fibers:
+                    bad = 'matricize(X, %d): the columns are not the mode-%d fibres of X' % (k, k)
+            if want is not None:
+                if list(got.shape) != list(np.shape(want)):
+                    bad = '%s returns shape %s, the definition gives %s' % (f, list(got.shape), list(np.shape(want)))
+                elif not np.array_equal(got, want):
+                    bad = '%s differs from its definition on the full array (max diff %g)' % (f, float(np.max(np.abs(got - want))))
+        if bad:
+            ctx.report('impl:%s' % kind, bad, replay)
+        if f == 'modek' and r['status'] == 'Ok':
+            try:
+                Bs = ['None'] * c['k'] + ['(Some (%s))' % CQ.c_mat(c['B'])]
+                items.append(('((oNway %s), [%s], %s)' % (clist(Bs), CQ.c_lit(dict(c['X'], t='full')),
+                                                          CQ.c_lit(dict(r['value'], t='full'))), replay, kind, bad))
+            except CQ.NotExact:
+                pass
+    ctx.cov['input_distribution']['free_functions'] = {'modek_tprod': sum(v for k_, v in dist.items() if k_.startswith('modek')),
+                                                       'matricize': dist.get('matricize', 0), 'outer': dist.get('outer', 0),
+                                                       'array_outer': dist.get('array_outer', 0)}
+    coq_run(ctx, 'C18_modek', 'zcheck_step', items, 'modek_tprod', per=120)
+
+
+# ---------------------------------------------------------------------------
 # rank_1_update / aca3d_update
 # ---------------------------------------------------------------------------
 
@@ -348,7 +456,7 @@ def run_update_cases(ctx, n):
             cases.append({'k': 'r3', 'X': G.rint_full(rng, sh, -9, 9), 'alpha': float(rng.randint(-4, 4)),
                           'u': [float(rng.randint(-5, 5)) for _ in range(sh[0])],
                           'V': G.rint_mat(rng, sh[1], sh[2], -5, 5)})
-    res = safe_run(ctx, 'upd', cases)
+    res = yield ('upd', cases)
     if res is None:
         return
     it1, it3 = [], []
@@ -534,12 +642,9 @@ def run_numeric(ctx, thorough):
         cases.append({'k': 'grou', 'A': full_spec(A), 'R': rng.randint(1, r_ + 1), 'tol': max(t, 1e-10 * nrm), 'npseed': seed()})
         cases.append({'k': 'gta', 'A': full_spec(A), 'R': rng.randint(1, r_ + 1), 'tol': max(t, 1e-10 * nrm),
                       'rtol': max(rng.choice(decades), 1e-10), 'npseed': seed()})
-    res = []
-    for ch in chunked(cases, 60):
-        r_ = safe_run(ctx, 'num', ch, timeout=900)
-        if r_ is None:
-            return
-        res += r_
+    res = yield ('num', cases)
+    if res is None:
+        return
     dist = {}
     maxdev = {}
     for c, r in zip(cases, res):
